@@ -130,7 +130,6 @@ let suite_auth (line : string) : string =
   else begin
     let h = kv line in
     let get k = match Hashtbl.find_opt h k with Some v -> v | None -> failwith ("case lacks " ^ k) in
-    let full = get "m" = "full" in
     let now = Z.add (big_of_z M.fixture_now0) (Z.of_string (get "t")) in
     let w = ref { M.w_accts = M.fixture_accounts pda; w_now = z_of_big now } in
     Hashtbl.reset aliases;
@@ -159,8 +158,24 @@ let suite_auth (line : string) : string =
               b_args = args;
               b_writable = List.filter_map (fun (_, k, _, wflag) -> if wflag then Some k else None) keys } in
     let signers = List.filter_map (fun (_, k, s, _) -> if s then Some k else None) keys in
-    match M.cell pda opq full (coq_string (get "ix")) !w b signers with
-    | M.COk -> if full then "OK" else "PASSV"
+    let mode = get "m" in
+    let pass = match mode with "full" | "risk" -> "OK" | "gate" -> "PASSB" | _ -> "PASSV" in
+    let guarded = mode <> "val" in
+    match M.cell pda opq guarded (coq_string (get "ix")) !w b signers with
+    | M.COk ->
+      if mode = "risk" then begin
+        (* scenario cells of the reduce-only valuation rule (calc_weighted_asset_value): the account's only
+           collateral is in bank `rb`; `rq` = I: an Initial-requirement check (borrow) passes iff that collateral
+           is worth something; `rq` = M: the account is healthy at Maintenance iff it is, and liquidating a
+           healthy account is refused with `rc` *)
+        let st = match M.opstate_of_Z (M.num_field (M.acct_of !w (resolve w (get "rb"))) (coq_string "operational_state")) with
+          | Some s -> s | None -> M.Operational in
+        let req = if get "rq" = "I" then M.Initial else M.Maintenance in
+        let worth = match M.weighted_asset_value_rule M.Collateral st req (M.Ok (zi 1)) with
+          | M.Ok v -> Z.sign (big_of_z v) > 0 | M.Err _ -> false in
+        if get "rq" = "I" then (if worth then "OK" else "B " ^ get "rc")
+        else (if worth then "B " ^ get "rc" else "OK")
+      end else pass
     | M.CVal (f, c) -> "V " ^ ocaml_string f ^ " " ^ zs c
     | M.CBody e -> "B " ^ err_code e
     | M.CNoEntry -> "NO-TABLE-ENTRY"
